@@ -62,13 +62,15 @@ let run path =
       let first_tsn = cz (List.nth rest 0) in
       let tlr = (List.nth rest 1) = "1" in
       ignore tlr;
+      (* oracle: RACK declared chunks lost during this event (onRackLossLocked ran) *)
+      let rack = (try int_of_string (List.hd (find "rack")) > 0 with Not_found | Failure _ -> false) in
       let after_ev =
         match ev with
         | "sack" :: cum :: arwnd :: ng :: gl ->
           bump "sack";
           let gaps = pairs (take (2 * int_of_string ng) gl) in
           (match M.sack_step pre (cz cum) (cz arwnd) gaps with
-           | M.SOk s -> bump "sack-accepted"; Some s
+           | M.SOk s -> bump "sack-accepted"; if rack then (bump "sack-with-rack-loss"; Some (M.rack_cut s)) else Some s
            | M.SErr -> bump "sack-rejected"; Some pre)
         | ["t3"] -> bump "t3"; Some (M.t3_step pre)
         | "write" :: sid :: n :: frags -> bump "write"; Some (M.write_step pre (cz sid) (List.map cz frags))
@@ -90,9 +92,18 @@ let run path =
              | Some s2 -> Some (proj (M.t3_step s2))
              | None -> None)
           else None in
+        (* the RACK timer may expire in the same clock advance as T3 (its marks are indistinguishable from T3's):
+           accept the congestion response of a RACK loss after the T3 step as well *)
+        let alt2 =
+          if ev = ["t3"] then
+            (match M.gather_new (M.rack_cut s1) chunks first_tsn false with
+             | Some s2 -> Some (proj s2)
+             | None -> None)
+          else None in
         if nsend > 0 then bump "with-new-sends";
         if primary = Some im then ()
         else if alt = Some im then bump "t3-after-gather"
+        else if alt2 = Some im then bump "t3-then-rack-loss"
         else match primary with
           | None ->
             report name 0 ("implementation moved new data the admission rule forbids: ev=" ^ String.concat " " ev ^ " sends=" ^ String.concat " " sends)
